@@ -140,6 +140,11 @@ def compare_c20(inp, impl_out, model_out):
     the set of whole-rounds states the implementation's value equals"""
     if inp.startswith('c20stress'):
         return impl_out == model_out
+    if inp.startswith('c20park'):
+        # blocked flag and final state exact; the reader's value must be one of the classes the implementation's snapshot equals
+        a = dict(t.split('=', 1) for t in impl_out.split(' '))
+        b = dict(t.split('=', 1) for t in model_out.split(' '))
+        return a.get('blocked') == b.get('blocked') and a.get('final') == b.get('final') and b.get('reader') in a.get('reader', '').split('|')
     a = dict(t.split('=', 1) for t in impl_out.split(' '))
     b = dict(t.split('=', 1) for t in model_out.split(' '))
     if a.get('blocked') != b.get('blocked'):
@@ -556,4 +561,25 @@ PROPS['C01'] = dict(
     compare=lambda inp, a, b: compare_recv(inp, a, b) if is_recv_line(inp) else _c01['compare'](inp, a, b),
     nontrivial=lambda inp, o: (' acc=' in o) if is_recv_line(inp) else _c01['nontrivial'](inp, o),
     rule=_c01['rule'] + ' || byte level: the own-response lines of mode recv (a genuine response that is not decoded, rejected or matched to another sequence would leave the probe Awaited / complete the wrong one)',
+)
+
+
+# ---- C14: "ProbeComplete.extensions" at the byte level: the own-response lines of mode recv carry the extension list the peer
+# encoded (decoded by the harness from its own encoding) as an expectation, incl. messages that reach the end of the receive buffer
+_c14b = PROPS['C14']
+PROPS['C14'] = dict(
+    _c14b, modes=_c14b['modes'] + [('hcore', 'recv')],
+    compare=lambda inp, a, b: compare_recv(inp, a, b) if is_recv_line(inp) else _c14b['compare'](inp, a, b),
+    nontrivial=lambda inp, o: ('=x+' in inp) if is_recv_line(inp) else _c14b['nontrivial'](inp, o),
+    rule=_c14b['rule'] + ' || receive path: own responses of mode recv with RFC 4884 / legacy extension structures (message sizes up to and beyond the 1024-octet receive buffer); oracle: the reported extension list is the one the router encoded',
+)
+
+
+# ---- C18 starts from the privacy level the user asked for: the option-layering lines of mode c16 carry a C18 oracle for that option
+_c18 = PROPS['C18']
+PROPS['C18'] = dict(
+    _c18, modes=_c18['modes'] + [('htui', 'c16')],
+    compare=lambda inp, a, b: compare_c16(inp, a, b) if inp.startswith('c16') else _c18['compare'](inp, a, b),
+    nontrivial=lambda inp, o: c16_nontrivial(inp, o) if inp.startswith('c16') else _c18['nontrivial'](inp, o),
+    rule=_c18['rule'] + ' || the requested level: mode c16 (command line / file / default layering through the real parsers), oracle on tui-privacy-max-ttl incl. the level 0',
 )
